@@ -48,11 +48,11 @@ Subnormals == { <<0,0,0,0,0,0,0,1>>, <<0,15,255,255,255,255,255,255>>, <<128,0,0
 
 CharSamples(T) ==
   IF T.alpha # <<>> THEN T.alpha
-  ELSE CASE T.st = "IA5" -> <<65, 122, 48, 32, 126, 33>>
-         [] T.st = "Visible" -> <<65, 122, 48, 32, 126>>
+  ELSE CASE T.st = "IA5" -> <<65, 38, 122, 48, 32, 126, 33, 60, 62>>
+         [] T.st = "Visible" -> <<65, 60, 122, 48, 32, 126, 38>>
          [] T.st = "Printable" -> <<65, 122, 48, 32, 63, 39>>
          [] T.st = "Numeric" -> <<48, 57, 32, 53>>
-         [] T.st = "UTF8" -> <<65, 233, 8364, 65536, 1114111, 127, 128, 2047, 2048, 65533>>
+         [] T.st = "UTF8" -> <<65, 233, 8364, 65536, 1114111, 127, 128, 2047, 2048, 65533, 38, 60>>
          [] T.st = "BMP" -> <<65, 255, 256, 8364, 65533>>
          [] T.st = "Universal" -> <<65, 65536, 1114111, 255>>
 
